@@ -148,8 +148,11 @@ def tqConsume (q : TimeQueue) (now : Time) (limit : Nat) : List CId × TimeQueue
 
 /-! ### message validation (ValidateBasic of types/msg.go, the parts the streams exercise) -/
 
+/-- strings.TrimSpace(s) == "" -/
+def isBlank (s : String) : Bool := s.toList.all Char.isWhitespace
+
 def validChainId (chain : String) : Bool :=
-  chain.trimAscii.toString != "" && chain.length ≤ 50 && chain != "neutron-1" && chain != "stride-1"
+  !isBlank chain && chain.length ≤ 50 && chain != "neutron-1" && chain != "stride-1"
 
 def validPS (ps : PS) : Bool :=
   (ps.topN == 0 || (50 ≤ ps.topN && ps.topN ≤ 100)) && ps.powCap ≤ 100
@@ -193,8 +196,34 @@ structure LaunchEnv where
   envFails   : Bool := false      -- an injected failure of an external call inside the launch
 deriving Repr, Inhabited
 
-/-- LaunchConsumer in its cached context: `none` = failed (nothing written) -/
-def launchConsumer (s : State) (c : CId) (env : LaunchEnv) : Option State :=
+/-- the client binding part of a launch (CreateConsumerClient / the named-connection branch of
+    MakeConsumerGenesis); `x` is the consumer record with the initial validator set already written -/
+def launchBind (s : State) (c : CId) (x : Consumer) (env : LaunchEnv) : Option State :=
+  if x.conn == "" then
+    -- CreateConsumerClient: phase must be initialized; the light client validates the revision
+    if x.phase != .initialized then none
+    else if x.chainRev != x.initRev then none
+    else
+      let cid := s!"07-tendermint-{s.nextClient}"
+      some { (s.set { x with client := some cid, evmin := 1, phase := .launched }) with
+               client2c := s.client2c.filter (fun e => e.1 != cid) ++ [(cid, c)], nextClient := s.nextClient + 1 }
+  else
+    match env.connClient with
+    | none => none
+    | some (cid, chainOfClient, h) =>
+      if chainOfClient != x.chain then none
+      -- the client of the named connection must not already be bound to another consumer
+      else if s.client2c.any (fun e => e.1 == cid && e.2 != c) then none
+      else
+        -- SetConsumerClientId: forward binding overwritten, reverse index moved
+        let rev : List (String × CId) := match x.client with
+          | some old => s.client2c.filter (fun e => e.1 != old)
+          | none => s.client2c
+        some { (s.set { x with client := some cid, evmin := h, phase := .launched }) with
+                 client2c := rev.filter (fun e => e.1 != cid) ++ [(cid, c)] }
+
+/-- the record after ComputeConsumerNextValSet at launch; `none` = the launch fails before binding -/
+def launchRecord (s : State) (c : CId) (env : LaunchEnv) : Option Consumer :=
   let x := s.get c
   match x.ps with
   | none => none
@@ -202,35 +231,18 @@ def launchConsumer (s : State) (c : CId) (env : LaunchEnv) : Option State :=
   match computeNextValSet (epochInput s x []) with
   | none => none
   | some out =>
-    if out.updates.isEmpty then none
-    else if !hasActiveValidator s out.next then none
+    if out.updates.isEmpty then none                 -- no consumer validator
+    else if !hasActiveValidator s out.next then none -- no active provider validator among them
     else if env.envFails then none
-    else
-      let x := { x with optin := out.optin, valset := out.next,
-                        minpow := match out.minpow with | some m => some m | none => x.minpow,
-                        genesis := some out.updates }
-      if x.conn == "" then
-        -- CreateConsumerClient: phase must be initialized; the light client validates the revision
-        if x.phase != .initialized then none
-        else if x.chainRev != x.initRev then none
-        else
-          let cid := s!"07-tendermint-{s.nextClient}"
-          let x := { x with client := some cid, evmin := 1, phase := .launched }
-          some { (s.set x) with client2c := s.client2c.filter (·.1 != cid) ++ [(cid, c)], nextClient := s.nextClient + 1 }
-      else
-        match env.connClient with
-        | none => none
-        | some (cid, chainOfClient, h) =>
-          if chainOfClient != x.chain then none
-          -- the client of the named connection must not already be bound to another consumer
-          else if s.client2c.any (fun e => e.1 == cid && e.2 != c) then none
-          else
-            -- SetConsumerClientId: forward binding overwritten, reverse index moved
-            let rev : List (String × CId) := match x.client with
-              | some old => s.client2c.filter (fun e => e.1 != old)
-              | none => s.client2c
-            let x := { x with client := some cid, evmin := h, phase := .launched }
-            some { (s.set x) with client2c := rev.filter (·.1 != cid) ++ [(cid, c)] }
+    else some { x with optin := out.optin, valset := out.next,
+                       minpow := match out.minpow with | some m => some m | none => x.minpow,
+                       genesis := some out.updates }
+
+/-- LaunchConsumer in its cached context: `none` = failed (nothing written) -/
+def launchConsumer (s : State) (c : CId) (env : LaunchEnv) : Option State :=
+  match launchRecord s c env with
+  | none => none
+  | some x => launchBind s c x env
 
 /-- BeginBlockLaunchConsumers: `envOf c` gives the environment facts of each due consumer -/
 def beginBlockLaunch (s : State) (envOf : CId → LaunchEnv) : State :=
@@ -353,7 +365,7 @@ structure UpdateArgs where
   infr     : Option Infr
 deriving Repr, Inhabited
 
-def validConsumerId (c : CId) : Bool := c != "" && c.all Char.isDigit
+def validConsumerId (c : CId) : Bool := c != "" && c.toList.all Char.isDigit
 
 /-- UpdateMinimumPowerInTopN; `none` = error -/
 def updateMinPower (s : State) (x : Consumer) (oldTopN newTopN : Nat) : Option Consumer :=
@@ -369,35 +381,36 @@ def updateMinPower (s : State) (x : Consumer) (oldTopN newTopN : Nat) : Option C
 def mergeInfr (cur : Infr) (new : Infr) : Infr :=
   { ds := new.ds.orElse (fun _ => cur.ds), dt := new.dt.orElse (fun _ => cur.dt) }
 
+def dropFromQueue (q : TimeQueue) (c : CId) : TimeQueue :=
+  q.filterMap fun e =>
+    let ids := e.2.erase c
+    if ids.isEmpty then none else some (e.1, ids)
+
+/-- RemoveConsumerInfractionQueuedData -/
+def clearQueued (s : State) (c : CId) : State :=
+  { (s.set { s.get c with qinfr := none }) with
+      infrQ := if (s.get c).qinfr.isSome then dropFromQueue s.infrQ c else s.infrQ }
+
 /-- UpdateQueuedInfractionParams -/
 def updateQueuedInfr (s : State) (c : CId) (new : Infr) : State :=
-  let x := s.get c
-  -- RemoveConsumerInfractionQueuedData
-  let infrQ := match x.qinfr with
-    | some _ => s.infrQ.filterMap fun e =>
-        let ids := e.2.erase c
-        if ids.isEmpty then none else some (e.1, ids)
-    | none => s.infrQ
-  let x := { x with qinfr := none }
-  let s := { (s.set x) with infrQ := infrQ }
-  if x.infr == some new then s
-  else
-    let t := s.now + s.unbonding
-    { (s.set { x with qinfr := some new }) with infrQ := tqAppend s.infrQ t c }
+  let s1 := clearQueued s c
+  if (s1.get c).infr == some new then s1
+  else { (s1.set { s1.get c with qinfr := some new }) with infrQ := tqAppend s1.infrQ (s1.now + s1.unbonding) c }
 
-/-- MsgUpdateConsumer; `none` = rejected -/
-def updateConsumer (s : State) (a : UpdateArgs) : Option State :=
-  if !validConsumerId a.c then none
-  else if (match a.ps with | some p => !validPS p.ps | none => false) then none
+/-- MsgUpdateConsumer up to (not including) the final owner/Top-N cross check: the state written so
+    far and the spawn time the consumer had before the message -/
+def updateGuard (s : State) (a : UpdateArgs) : Bool :=
+  validConsumerId a.c && (match a.ps with | some p => validPS p.ps | none => true) &&
+  isActive (s.get a.c).phase && a.sender == (s.get a.c).owner
+
+def updateCore (s : State) (a : UpdateArgs) : Option (State × Time) :=
+  if !updateGuard s a then none
   else
-  let x := s.get a.c
-  if !isActive x.phase then none
-  else if a.sender != x.owner then none
-  else
+    let x := s.get a.c
     let oldOwner := x.owner
     -- chain id
     let r1 : Option Consumer :=
-      if a.newChain.trimAscii.toString != "" && a.newChain != x.chain then
+      if !isBlank a.newChain && a.newChain != x.chain then
         if !validChainId a.newChain then none
         else if isPrelaunched x.phase then some { x with chain := a.newChain, chainRev := a.newChainRev }
         else none
@@ -454,9 +467,17 @@ def updateConsumer (s : State) (a : UpdateArgs) : Option State :=
         let new := mergeInfr cur i
         if isPrelaunched x.phase then s.set { x with infr := some new }
         else updateQueuedInfr s a.c new
-    let x := s.get a.c
-    if (x.ps.getD {}).topN != 0 && x.owner != s.authority then none
-    else initializeAndPrepare s a.c prevSpawn
+    some (s, prevSpawn)
+
+/-- MsgUpdateConsumer; `none` = rejected -/
+def updateConsumer (s : State) (a : UpdateArgs) : Option State :=
+  match updateCore s a with
+  | none => none
+  | some (s1, prevSpawn) =>
+    -- a Top-N consumer must be owned by the governance authority after the update
+    if ((s1.get a.c).ps.getD {}).topN != 0 && (s1.get a.c).owner != s1.authority then none
+    else initializeAndPrepare s1 a.c prevSpawn
+
 
 /-- MsgRemoveConsumer; `none` = rejected -/
 def removeConsumer (s : State) (sender : String) (c : CId) : Option State :=
@@ -468,6 +489,104 @@ def removeConsumer (s : State) (sender : String) (c : CId) : Option State :=
     else if x.phase != .launched then none
     else some (stopConsumer s c)
 
+
+/-! ### key assignment, opt-in / opt-out (key_assignment.go, partial_set_security.go, hooks.go) -/
+
+def valExists (s : State) (v : Nat) : Bool := s.stk.any (·.id == v)
+
+def assignedKey (x : Consumer) (v : Nat) : Option Nat :=
+  match x.ka.find? (·.1 == v) with
+  | some p => some p.2
+  | none => none
+
+def resolveKey (x : Consumer) (k : Nat) : Option Nat :=
+  match x.byaddr.find? (·.1 == k) with
+  | some p => some p.2
+  | none => none
+
+/-- GetProviderAddrFromConsumerAddr: identity fallback for keys that were never assigned.
+    (key id k < number of validators = provider key of validator k) -/
+def providerOf (x : Consumer) (k : Nat) : Nat := (resolveKey x k).getD k
+
+def setAssoc (l : List (Nat × Nat)) (k v : Nat) : List (Nat × Nat) :=
+  if l.any (·.1 == k) then l.map fun e => if e.1 == k then (k, v) else e else l ++ [(k, v)]
+
+/-- AppendConsumerAddrsToPrune -/
+def pruneAppend (pr : List (Time × List Nat)) (t : Time) (k : Nat) : List (Time × List Nat) :=
+  if pr.any (·.1 == t) then pr.map fun e => if e.1 == t then (t, e.2 ++ [k]) else e
+  else (pr.filter (·.1 < t)) ++ [(t, [k])] ++ pr.filter (fun e => decide (t < e.1))
+
+/-- the checks of Keeper.AssignConsumerKey, in code order -/
+def assignOK (s : State) (c : CId) (v key : Nat) : Bool :=
+  let x := s.get c
+  isActive x.phase &&
+  -- the key is the provider key of an existing validator: only the validator itself may take it,
+  -- and only after it had assigned a different key on this consumer
+  (!valExists s key || (key == v && (assignedKey x v).isSome)) &&
+  -- the key is in use on this consumer, or was replaced and still waits to be pruned
+  (resolveKey x key).isNone
+
+/-- the writes of Keeper.AssignConsumerKey -/
+def assignRecord (pruneAt : Time) (v key : Nat) (x : Consumer) : Consumer :=
+  let x1 : Consumer := match assignedKey x v with
+    | some old =>
+      if x.phase == Phase.launched then { x with prune := pruneAppend x.prune pruneAt old }
+      else { x with byaddr := x.byaddr.filter fun b => b.1 != old }
+    | none => x
+  { x1 with ka := setAssoc x1.ka v key, byaddr := setAssoc x1.byaddr key v }
+
+/-- Keeper.AssignConsumerKey; `none` = rejected -/
+def assignKey (s : State) (c : CId) (v key : Nat) : Option State :=
+  if assignOK s c v key then some (s.set (assignRecord (s.now + s.unbonding) v key (s.get c))) else none
+
+/-- MsgAssignConsumerKey (ValidateBasic: signer is the validator's operator) -/
+def msgAssignKey (s : State) (c : CId) (v signer key : Nat) : Option State :=
+  if !validConsumerId c || signer != v then none
+  else if !valExists s v then none
+  else assignKey s c v key
+
+/-- MsgOptIn -/
+def msgOptIn (s : State) (c : CId) (v signer : Nat) (key : Option Nat) : Option State :=
+  if !validConsumerId c || signer != v then none
+  else if !valExists s v then none
+  else
+    let x := s.get c
+    if !isActive x.phase then none
+    else
+      let s := s.set { x with optin := if x.optin.contains v then x.optin else x.optin ++ [v] }
+      match key with
+      | none => some s
+      | some k => assignKey s c v k
+
+/-- MsgOptOut -/
+def msgOptOut (s : State) (c : CId) (v signer : Nat) : Option State :=
+  if !validConsumerId c || signer != v then none
+  else if !valExists s v then none
+  else
+    let x := s.get c
+    if x.phase != .launched then none
+    else
+      let topN := (x.ps.getD {}).topN
+      let blocked : Bool :=
+        if topN > 0 then
+          match x.minpow with
+          | none => true
+          | some mp => decide (lastPower s.stk v ≥ mp)
+        else false
+      if blocked then none
+      else some (s.set { x with optin := x.optin.filter (· != v) })
+
+/-- staking hook AfterValidatorCreated: the creation is aborted iff the new validator's consensus
+    key is known (assigned or waiting for pruning) on some ACTIVE consumer -/
+def validatorKeyInUse (s : State) (key : Nat) : Bool :=
+  s.consumers.any fun x => isActive x.phase && (resolveKey x key).isSome
+
+/-- staking hook AfterValidatorRemoved -/
+def afterValidatorRemoved (s : State) (v : Nat) : State :=
+  { s with consumers := s.consumers.map fun x =>
+      match assignedKey x v with
+      | some k => { x with ka := x.ka.filter (·.1 != v), byaddr := x.byaddr.filter (·.1 != k) }
+      | none => x }
 
 /-! ### channel handshake (ibc_module.go, keeper.go VerifyConsumerChain / SetConsumerChain) -/
 
@@ -550,35 +669,39 @@ def providerValUpdates (s : State) (g : GlobalVS) : GlobalVS × List ValSet.Upda
   ({ g with lastProv := next }, ValSet.diff (toVals g.lastProv) (toVals next))
 
 /-- QueueVSCPackets; `none` = error (the block fails) -/
+def queueOne (s : State) (c : CId) : Option State :=
+  let x := s.get c
+  if x.phase != .launched then some s          -- only launched consumers get validator updates
+  else
+    match x.ps with
+    | none => none
+    | some _ =>
+    match computeNextValSet (epochInput s x x.valset) with
+    | none => none
+    | some out =>
+      let x := { x with optin := out.optin, valset := out.next,
+                        minpow := match out.minpow with | some m => some m | none => x.minpow }
+      let x := if out.updates.isEmpty then x
+               else { x with pend := x.pend ++ [{ id := s.vscId, updates := out.updates, acks := x.acks }], acks := [] }
+      some (s.set x)
+
 def queueVSC (s : State) : Option State :=
   let r := (consumersWithClients s).foldl (fun (acc : Option State) x0 =>
     match acc with
     | none => none
-    | some s =>
-      let x := s.get x0.id
-      if x.phase != .launched then some s
-      else
-        match x.ps with
-        | none => none
-        | some _ =>
-        match computeNextValSet (epochInput s x x.valset) with
-        | none => none
-        | some out =>
-          let x := { x with optin := out.optin, valset := out.next,
-                            minpow := match out.minpow with | some m => some m | none => x.minpow }
-          let x := if out.updates.isEmpty then x
-                   else { x with pend := x.pend ++ [{ id := s.vscId, updates := out.updates, acks := x.acks }], acks := [] }
-          some (s.set x)) (some s)
+    | some s => queueOne s x0.id) (some s)
   match r with
   | none => none
   | some s => some { s with vscId := s.vscId + 1 }
 
 /-- SendVSCPackets with a healthy channel: everything pending is sent, in order, and dropped -/
+def sendOne (acc : State × List (CId × Packet)) (c : CId) : State × List (CId × Packet) :=
+  let x := acc.1.get c
+  if x.phase != .launched || x.channel.isNone then acc
+  else (acc.1.set { x with pend := [] }, acc.2 ++ x.pend.map fun p => (x.id, p))
+
 def sendVSC (s : State) : State × List (CId × Packet) :=
-  (consumersWithClients s).foldl (fun (acc : State × List (CId × Packet)) x0 =>
-    let x := acc.1.get x0.id
-    if x.phase != .launched || x.channel.isNone then acc
-    else (acc.1.set { x with pend := [] }, acc.2 ++ x.pend.map fun p => (x.id, p))) (s, [])
+  (consumersWithClients s).foldl (fun acc x0 => sendOne acc x0.id) (s, [])
 
 /-- EndBlock of the provider module; `none` = error -/
 def endBlock (s : State) (g : GlobalVS) : Option (State × GlobalVS × List ValSet.Update × List (CId × Packet)) :=
